@@ -33,7 +33,9 @@ TABLES = [
     ('T8d', 'get_enabled_defenses', ('C12',)),
     ('T8e', 'get_attack_surface', ('C12',)),
     ('T8f', 'update_attack_surface_add_nodes', ('C12',)),
+    ('T10', 'LanguageGraph._get_attacks_for_asset_type', ('C03', 'C02')),
 ]
+STRIP_COPIES = {'T10'}
 # small pure methods that may be inlined into their callers
 INLINE_METHODS = [('AttackGraphNode', 'is_compromised_by'), ('AttackGraphNode', 'is_compromised'),
                   ('AttackGraphNode', 'is_enabled_defense'), ('AttackGraphNode', 'is_available_defense')]
@@ -47,6 +49,11 @@ def run(ctx) -> list[Inst]:
     with open(REF, encoding='utf-8') as fh:
         reft = ast.parse(fh.read())
     ref_funcs = {n.name: n for n in reft.body if isinstance(n, ast.FunctionDef)}
+    for cls in reft.body:
+        if isinstance(cls, ast.ClassDef):
+            for n in cls.body:
+                if isinstance(n, ast.FunctionDef):
+                    ref_funcs[n.name] = n
     ref_inline = {k: v for k, v in ref_funcs.items() if k.startswith('_')}
     insts = []
     for (tid, fname, props) in TABLES:
@@ -66,11 +73,15 @@ def run(ctx) -> list[Inst]:
         construct = f'{tid}: decision table of {rname} equals the reference'
         rel = f.module.relpath
         try:
-            ref_table = table_of(ref_funcs[rname], ref_inline)
+            ref_table = table_of(ref_funcs[rname], ref_inline, strip_copies=tid in STRIP_COPIES)
         except Unsupported as e:
             raise AnalysisError(f'reference table {rname} not extractable: {e}')
         try:
-            table = table_of(f.node, inline)
+            table = table_of(f.node, inline, strip_copies=tid in STRIP_COPIES)
+        except RecursionError as e:
+            insts.append(Inst(RULE, fname, construct, 'unproven', msg='extractor recursion limit', file=rel,
+                              line=f.node.lineno, props=props))
+            continue
         except Unsupported as e:
             insts.append(Inst(RULE, fname, construct, 'unproven', msg=f'construct outside the table language: {e}',
                               file=rel, line=f.node.lineno, props=props))
@@ -84,7 +95,10 @@ def run(ctx) -> list[Inst]:
         names_in(table, v1)
         names_in(ref_table, v2)
         extra = sorted(v1 - v2)
-        d = diff_tables(table, ref_table)
+        try:
+            d = diff_tables(table, ref_table)
+        except Exception as e:      # rendering only
+            d = f'tables differ (rendering failed: {e})'
         if extra:
             insts.append(Inst(RULE, fname, construct, 'unproven',
                               msg=f'table differs but uses names unknown to the reference {extra}: {d[:300]}',
